@@ -20,7 +20,7 @@ def main():
         seeds = a.seeds.split(",") if a.seeds else None
         ops = a.ops.split(",") if a.ops else None
         prop = a.prop.upper()
-        if prop in ("C01", "C04", "C07", "C17", "C10", "C05"):
+        if prop in ("C01", "C04", "C07", "C17", "C10", "C05", "C06L2"):
             from .check_sweep import run_property
 
             sys.exit(run_property(prop, a.tier, seeds, ops))
@@ -52,6 +52,10 @@ def main():
             from .check_c14 import run
 
             sys.exit(run(a.tier))
+        if prop in ("C06", "C16"):
+            from .check_cursors import run
+
+            sys.exit(run(prop, a.tier))
         if prop == "C19":
             from .check_c19 import run
 
